@@ -40,8 +40,11 @@ def cases(draw):
                                               'define_class'])),
                         draw(st.integers(0, 9)), draw(st.integers(0, 9)), draw(st.integers(0, 9))])
     nstm = len(schema_statements(schema_js)) + len(pop['rows'])
+    late = draw(st.booleans())
+    if late:
+        ops[0] = ['input', draw(st.integers(1, 4))]
     return {'schema': schema_js, 'pop': pop, 'ops': ops, 'perm': list(draw(st.permutations(list(range(nstm))))),
-            'sorted_prefix': draw(st.booleans())}
+            'sorted_prefix': draw(st.booleans()), 'late_tables': late}
 
 
 def statements_of(case):
@@ -61,7 +64,13 @@ def statements_of(case):
     # CREATE TABLE statements first (in drawn order): an association or identifier naming a class that has not
     # arrived yet makes build raise UnknownClassException, which would leave most histories without a build
     ncls = len(schema_js['classes'])
-    order = [i for i in order if i < ncls] + [i for i in order if i >= ncls]
+    nsch = len(schema_statements(schema_js))
+    if case.get('late_tables'):
+        # tables and instances in any order (a build may see instances of a class whose table has not arrived yet
+        # and infer it); associations and identifiers after all tables
+        order = [i for i in order if i < ncls or i >= nsch] + [i for i in order if ncls <= i < nsch]
+    else:
+        order = [i for i in order if i < ncls] + [i for i in order if i >= ncls]
     return [stm[i] for i in order]
 
 
